@@ -170,17 +170,23 @@ type c34PeerMon struct {
 	joinNotified  bool      // some Join(p) notification was received
 	firstLeft     time.Time // earliest Left(p) notification not answered by an emitted NodeLeft(p)
 	hasFirstLeft  bool
+	leftSeq       int64  // position of that notification in the history
+	latestAtLeft  uint64 // node-left epoch most recently started when it was received (0 = none)
 }
 
 type c34Mon struct {
-	peers     map[string]*c34PeerMon
-	startLeft map[uint64]bool
-	complete  map[uint64]bool
-	atNotif   int64 // statistics: NodeLeft emitted while processing the Left notification itself
+	peers      map[string]*c34PeerMon
+	startLeft  map[uint64]bool
+	complete   map[uint64]bool
+	atNotif    int64            // statistics: NodeLeft emitted while processing the Left notification itself
+	seq        int64            // notifications received so far
+	startAny   map[uint64]bool  // some start notification (any reason) of this epoch was received
+	startSeq   map[uint64]int64 // position of the FIRST start notification of each node-left epoch
+	latestLeft uint64           // node-left epoch whose first start notification is the most recent one
 }
 
 func c34NewMon() *c34Mon {
-	m := &c34Mon{peers: map[string]*c34PeerMon{}, startLeft: map[uint64]bool{}, complete: map[uint64]bool{}}
+	m := &c34Mon{peers: map[string]*c34PeerMon{}, startLeft: map[uint64]bool{}, complete: map[uint64]bool{}, startSeq: map[uint64]int64{}, startAny: map[uint64]bool{}}
 	for _, p := range c34Peers() {
 		m.peers[p] = &c34PeerMon{}
 	}
@@ -198,6 +204,7 @@ func (m *c34Mon) peer(p string) *c34PeerMon {
 
 // notify records a delivered notification (before the emissions it causes are examined).
 func (m *c34Mon) notify(o c34Op, now time.Time) {
+	m.seq++
 	switch o.kind {
 	case 0:
 		pm := m.peer(o.p)
@@ -209,8 +216,18 @@ func (m *c34Mon) notify(o c34Op, now time.Time) {
 		pm.oppSinceJoin = true
 		if !pm.hasFirstLeft {
 			pm.hasFirstLeft, pm.firstLeft = true, now
+			pm.leftSeq, pm.latestAtLeft = m.seq, m.latestLeft
 		}
 	case 2:
+		// an epoch is identified by its number: a second start notification of an epoch already seen
+		// (re-delivered, or carrying another reason) is not a new epoch
+		if !m.startAny[o.e] && o.reason == rebalanceReasonNodeLeft {
+			m.startSeq[o.e] = m.seq
+			m.latestLeft = o.e
+		}
+		if o.reason == rebalanceReasonNodeLeft || o.reason == rebalanceReasonNodeJoin {
+			m.startAny[o.e] = true
+		}
 		if o.reason == rebalanceReasonNodeLeft {
 			m.startLeft[o.e] = true
 		}
@@ -246,6 +263,22 @@ func (m *c34Mon) emitted(ev *Event, now time.Time) []vsched.Violation {
 		}
 		_, settled := m.settledLeftEpoch()
 		overdue := pm.hasFirstLeft && now.Sub(pm.firstLeft) >= nodeLeftEmitTimeout
+		// "the rebalance epoch covering it": a settled node-left epoch covers the departure when its
+		// (first) start notification arrived after the Left notification, or when it was the most
+		// recently started node-left epoch at the time the Left notification arrived (notifications
+		// may be reordered, so the departure's own rebalance can start before its Left arrives).
+		// A settled epoch that is older than both is not the departure's epoch.
+		if settled && !overdue && pm.hasFirstLeft {
+			covered := false
+			for e := uint64(1); e <= 8; e++ {
+				if _, first := m.startSeq[e]; first && m.complete[e] && (m.startSeq[e] > pm.leftSeq || e == pm.latestAtLeft) {
+					covered = true
+				}
+			}
+			if !covered {
+				v = append(v, vsched.Fail("nodeleft-justified-only-by-an-older-epoch", "NodeLeft(%s) emitted although every settled node-left epoch had started before its Left notification and was not the latest one then (starts %v, completes %v, latest at Left = %d)", c34Name(p), m.startLeft, m.complete, pm.latestAtLeft))
+			}
+		}
 		if !settled && !overdue && len(pm.leftNotifs) > 0 {
 			since := "n/a"
 			if pm.hasFirstLeft {
